@@ -437,6 +437,7 @@ char *FUNC(generate)(jwt_common_t *__cmd)
 	char *out = NULL;
 	jwt_value_t jval;
 	time_t tm = time(NULL);
+	int claim_err = 0;
 
 	if (__cmd == NULL)
 		return NULL;
@@ -449,24 +450,34 @@ char *FUNC(generate)(jwt_common_t *__cmd)
 
 	jwt->headers = json_deep_copy(__cmd->c.headers);
 	jwt->claims = json_deep_copy(__cmd->c.payload);
+	if (jwt->headers == NULL || jwt->claims == NULL) {
+		jwt_write_error(__cmd, "Error allocating memory");
+		return NULL;
+	}
 
 	/* Our internal work first */
 	if (__cmd->c.claims & JWT_CLAIM_IAT) {
 		jwt_set_SET_INT(&jval, "iat", (long)tm);
 		jval.replace = 1;
-		jwt_claim_set(jwt, &jval);
+		claim_err |= jwt_claim_set(jwt, &jval);
 	}
 
 	if (__cmd->c.claims & JWT_CLAIM_NBF) {
 		jwt_set_SET_INT(&jval, "nbf", (long)(tm + __cmd->c.nbf));
 		jval.replace = 1;
-		jwt_claim_set(jwt, &jval);
+		claim_err |= jwt_claim_set(jwt, &jval);
 	}
 
 	if (__cmd->c.claims & JWT_CLAIM_EXP) {
 		jwt_set_SET_INT(&jval, "exp", (long)(tm + __cmd->c.exp));
 		jval.replace = 1;
-		jwt_claim_set(jwt, &jval);
+		claim_err |= jwt_claim_set(jwt, &jval);
+	}
+
+	/* Never hand out a token that lacks a claim it was asked to carry */
+	if (claim_err) {
+		jwt_write_error(__cmd, "Error setting time claims");
+		return NULL;
 	}
 
 	/* Alg and key checks */
